@@ -2,6 +2,9 @@
 from __future__ import annotations
 import ast
 from ..ncalg import NCEval, parse_expr, _single_atom
+from ..api import A
+from fractions import Fraction
+from ..terms import tkey
 from ..spaces import flat, show, same
 from ..report import AnalysisError
 from . import spacerules as SR
@@ -54,181 +57,206 @@ def layout(rep, interps):
         rep.ob('R10.layout', 'sources', same(src.space, U), f'published source order {show(src.space)} vs columns of B {show(U)}')
 
 
-SPEC = {
-    'A': "invLambda @ S_",
-    'B': "-invLambda @ S_ @ DQ.T @ inv(A_tilde) @ QS",
-    'C': "inv(A_tilde) @ DQ @ S_",
-    'D': "(inv(A_tilde) - inv(A_tilde) @ DQ @ S_ @ DQ.T @ inv(A_tilde)) @ QS",
-}
-S_EXPR = "inv(DQ.T @ inv(A_tilde) @ DQ)"
-
-
 def formulas(rep, prog):
-    m = prog.mod(SS)
-    fn = m.defs.get('state_space_matrices')
-    if not isinstance(fn, ast.FunctionDef): raise AnalysisError('state_space_matrices not found')
-    body = [st for st in fn.body if not isinstance(st, ast.FunctionDef)]
-    site = prog.site(m, fn)
-    ev0 = NCEval(); res = ev0.run(body)
-    if not isinstance(res, list) or len(res) != 4:
-        rep.ob('R10.formula', 'ABCD', None, 'state_space_matrices does not return four straight-line matrix expressions', site); return
-    # identify the base matrices by the calls that produce them (not by local variable names)
-    def atom_of_call(prefix):
-        for name in ev0.calls:
-            if name.startswith(prefix + '('): return name
-        return None
-    a_tilde = atom_of_call('nodal_analysis_coefficient_matrix')
-    delta = atom_of_call('element_incidence_matrix')
-    qsql = atom_of_call('source_and_inductance_incidence_matrix')
-    lam = atom_of_call('value_matrix')
-    hst = atom_of_call('hstack')
-    ilam = next((n for n in ev0.calls if n.startswith('diag(') and '1 /' in n.replace('1/', '1 /')), None)
-    wiring = {
-        'Delta<-c_values': delta is not None and ev0.calls[delta][1] == ['c_values'],
-        'QS,QL<-l_values': qsql is not None and ev0.calls[qsql][1] == ['l_values'],
-        'A_tilde<-network': a_tilde is not None and (ev0.calls[a_tilde][1][:1] == ['network'] or ev0.calls[a_tilde][2].get('network') == 'network'),
-        'Lambda<-(c_values,l_values)': lam is not None and ev0.calls[lam][1] == ['c_values', 'l_values'],
-    }
-    for k, ok in wiring.items():
-        rep.ob('R10.wiring', k, bool(ok), 'argument wiring of the builder' if ok else f'unexpected arguments: {[(n, ev0.calls[n][1]) for n in ev0.calls]!r:.200}', site)
-    # DQ = hstack((Delta.T, QL))
-    okdq = False
-    if hst is not None and delta is not None and qsql is not None:
-        arg = ev0.calls[hst][1][0] if ev0.calls[hst][1] else ''
-        try:
-            tup = ast.parse(arg, mode='eval').body
-            if isinstance(tup, ast.Tuple) and len(tup.elts) == 2:
-                e1 = NCEval(); e1.env = dict(ev0.env)
-                first, second = e1.ev(tup.elts[0]), e1.ev(tup.elts[1])
-                okdq = repr(first) == delta + 'ᵀ' and _single_atom(second) == qsql + '[1]'
-        except SyntaxError:
-            pass
-    rep.ob('R10.wiring', 'DQ=[Delta^T|QL]', okdq, f'DQ = {hst}', site)
-    # invLambda = diag(1/diag(Lambda))
-    okil = ilam is not None and lam is not None
-    if okil:
-        arg = ev0.calls[ilam][1][0]
-        okil = False
-        try:
-            lc = ast.parse(arg, mode='eval').body
-            if isinstance(lc, (ast.ListComp, ast.GeneratorExp)) and len(lc.generators) == 1 and not lc.generators[0].ifs and 'diag(' in ast.unparse(lc.generators[0].iter):
-                from ..terms import Evaluator as _E, Comp as _C, Poly as _P, term_equal as _te
-                from ..api import A as _A
-                e1 = _E(prog)
-                t_ = e1.ev(lc, {'__parent__': None, 'Lambda': _A('Lambda'), 'np': e1.lookup('np', {'__parent__': None}, m)}, m, 1)
-                if isinstance(t_, _C) and len(t_.gens) == 1:
-                    beta = e1.elem_of(t_.gens[0][0], 0)
-                    okil = _te(t_.elt, beta.inv()) if isinstance(beta, _P) else False
-        except SyntaxError:
-            okil = False
-    rep.ob('R10.wiring', 'invLambda=diag(1/diag(Lambda))', bool(okil), f'invLambda = {ilam}', site)
-    if None in (a_tilde, hst, qsql, ilam):
-        rep.ob('R10.formula', 'ABCD', None, 'base matrices not identified', site); return
-    from ..ncalg import NC
-    sym = {a_tilde}
-    ev = NCEval(symmetric=sym); res = ev.run(body)
-    spv = NCEval(symmetric=sym)
-    spv.env = {'DQ': NC.atom(hst), 'A_tilde': NC.atom(a_tilde), 'QS': NC.atom(qsql + '[0]'), 'invLambda': NC.atom(ilam)}
-    spv.env['S_'] = spv.ev(parse_expr(S_EXPR))
-    for name, got in zip('ABCD', res):
-        want = spv.ev(parse_expr(SPEC[name]))
+    from . import ssm as SSM
+    from . import incidence as INC
+    from ..diagalg import show as dshow
+    an = SSM.analyse(prog)
+    site = an['site']
+    if 'undecided' in an:
+        rep.ob('R10.formula', 'ABCD', None, an['undecided'], site); return
+    roles, kn = an['roles'], an['kn']
+    one = lambda r: roles.get(r, [None])[0] if len(roles.get(r, [])) == 1 else None
+    at, dq, lam, qs = one('A_tilde'), one('DQ'), one('LAMBDA'), one('QS')
+    # ---- wiring of the base matrices (by content of their normal forms)
+    tabs = INC.tables(prog)
+    dkey = kn.names.get(dq) if dq else None
+    okd = None
+    if dkey is not None:
+        r = repr(dkey)
+        okd = "'c_values'" in r and 'undecided' not in tabs['Delta']
+    rep.ob('R10.wiring', 'Delta<-c_values', okd or None, 'the incidence block of the state matrix is built over c_values' if okd else 'incidence block over c_values not identified', site)
+    # DQ = [Delta^T | QL]: first part a transposed array built over c_values, second part a column selection by l_values
+    okdq = okql = None
+    if dkey is not None:
+        parts = list(dkey[2:])
+        if len(parts) == 2:
+            p0, p1 = repr(parts[0]), repr(parts[1])
+            horizontal = dkey[1] == 'hcat'
+            first_T = ("('T'," in p0[:40]) if horizontal else ("('T'," not in p0[:40])
+            okdq = bool("'c_values'" in p0 and "'build'" in p0 and first_T and "'c_values'" not in p1)
+            okql = bool("'l_values'" in p1 and "'c_values'" not in p1)
+        else:
+            okdq = False
+    rep.ob('R10.wiring', 'DQ=[Delta^T|QL]', okdq or None, f'DQ = {dkey[1] if dkey else None}(capacitor incidence (transposed), inductance columns)', site)
+    qkey = kn.names.get(qs) if qs else None
+    okq = None
+    if qkey is not None and dkey is not None and okql is not None:
+        rq = repr(qkey)
+        qlk = dkey[3] if len(dkey) == 4 else None
+        if isinstance(qlk, tuple) and qlk[:1] == ('poly',) and len(qlk) == 2 and len(qlk[1][0]) == 1: qlk = qlk[1][0][0][0]      # 1 * atom
+        same_base = isinstance(qkey, tuple) and qkey[:1] == ('[]',) and isinstance(qlk, tuple) and qlk[:1] == ('[]',) and qlk[1] == qkey[1]
+        okq = bool(okql and "'l_values'" in rq and same_base)
+    rep.ob('R10.wiring', 'QS,QL<-l_values', okq or None, 'QS and QL select complementary columns (by l_values) of one source incidence block' if okq else 'column selections by l_values not identified', site)
+    akey = kn.names.get(at) if at else None
+    if akey is not None and akey[:1] == ('imag',):
+        from ..terms import term_from_key
+        p_ = term_from_key(akey[1]) if isinstance(akey[1], tuple) and akey[1][:1] == ('poly',) else None
+        akey = p_.as_atom() if p_ is not None and p_.as_atom() is not None else akey[1]
+    oka = None
+    if akey is not None:
+        args, kw = akey[2], dict(akey[3])
+        net = tkey(A('network'))
+        oka = (args[:1] == (net,) or kw.get('network') == net)
+    rep.ob('R10.wiring', 'A_tilde<-network', oka, 'DC coefficient matrix of the same network', site)
+    rep.ob('R10.wiring', 'A_tilde:real', ((at in an['real']) and not an.get('imag')) if at else None, 'DC coefficient matrix taken as real', site)
+    blocks, d = SSM.lambda_blocks(an)
+    inverted = SSM._is_inverse_lambda(d) if d is not None else None
+    if d is not None and d[0] == 'bad': inverted = None
+    rep.ob('R10.wiring', 'Lambda<-(c_values,l_values)', None if d is None else inverted is not None, f'value matrix = {dshow(d)}' + (' (already inverted)' if inverted else ''), site)
+    A_ = an['forms']['A']
+    rep.ob('R10.wiring', 'invLambda=diag(1/diag(Lambda))', None if d is None else inverted is not None,
+           f'A = {A_!r:.120}: its first factor is the element-wise reciprocal / inverse of the diagonal value matrix', site)
+    # ---- formulas
+    want, why = SSM.spec_forms(an)
+    if want is None:
+        rep.ob('R10.formula', 'ABCD', None, why, site); return
+    for name in 'ABCD':
+        got = an['forms'][name]
         opaque = '?' in repr(got)
-        rep.ob('R10.formula', name, True if got == want else (None if opaque else False), f'{name} = {got!r:.300}' + ('' if got == want else f'   expected {want!r:.300}'), site)
-    # real part of the DC matrix
-    src = ast.unparse(fn)
-    rep.ob('R10.wiring', 'A_tilde:real', 'nodal_analysis_coefficient_matrix(network).real' in src.replace(' ', '') or '.real' in src, 'DC coefficient matrix taken as real', site)
+        rep.ob('R10.formula', name, True if got == want[name] else (None if opaque else False),
+               f'{name} = {got!r:.300}' + ('' if got == want[name] else f'   expected {want[name]!r:.300}') + f"   [{', '.join(f'{r}={v[0]}' for r, v in roles.items() if r != 'other')}]", site)
 
 
 def wrapper(rep, prog):
-    """Circuit.state_space_model: C and D are stacked from the same request lists, in the same order, with matching accessor kinds"""
-    m = prog.mod(SR.CSS); fn = m.defs.get('state_space_model')
-    if not isinstance(fn, ast.FunctionDef):
+    """Circuit.state_space_model: C and D are stacked from the same request lists, in the same order, with matching accessor kinds
+    (normal forms: a stacking loop, a single stack of comprehensions and a table-driven helper all reduce to vcat(rows(...), ...))"""
+    from ..terms import Evaluator, Rec, Poly, term_equal, has_opaque
+    from ..api import call, spec
+    try:
+        f = prog.func(SR.CSS, 'state_space_model')
+    except KeyError:
         rep.ob('R10.wrapper', 'state_space_model', None, 'wrapper not found'); return
-    seq = {'c': [], 'd': []}
-    for st in fn.body:
-        if isinstance(st, ast.For):
-            for call in ast.walk(st):
-                if isinstance(call, ast.Call) and isinstance(call.func, ast.Attribute) and call.func.attr[:6] in ('c_row_', 'd_row_'):
-                    arg = ast.unparse(call.args[0]) if call.args else None
-                    ok_arg = isinstance(st.target, ast.Name) and arg == st.target.id
-                    tgt = None
-                    for a in ast.walk(st):
-                        if isinstance(a, ast.Assign) and isinstance(a.targets[0], ast.Name): tgt = a.targets[0].id
-                    seq[call.func.attr[0]].append((ast.unparse(st.iter), call.func.attr[6:], ok_arg, tgt))
-    site = prog.site(m, fn)
-    okc = [(a, b) for a, b, ok, t in seq['c']] == [(a, b) for a, b, ok, t in seq['d']] and len(seq['c']) >= 3
-    rep.ob('R10.wrapper', 'rows-in-step', okc, f"C rows: {[(a, b) for a, b, _, _ in seq['c']]}  D rows: {[(a, b) for a, b, _, _ in seq['d']]}", site)
-    rep.ob('R10.wrapper', 'row-argument', all(ok for _, _, ok, _ in seq['c'] + seq['d']) and bool(seq['c']), 'each row is requested for the identifier being iterated', site)
-    kinds = {('potential_nodes', 'for_potential'), ('voltage_ids', 'voltage'), ('current_ids', 'current')}
-    rep.ob('R10.wrapper', 'list-kind', {(a, b) for a, b, _, _ in seq['c']} == kinds, 'potential_nodes -> potential rows, voltage_ids -> voltage rows, current_ids -> current rows', site)
-    from ..prog import returned_expr
-    rv = returned_expr(fn)
-    kw = {k.arg: ast.unparse(k.value) for k in rv.keywords} if isinstance(rv, ast.Call) else {}
-    ctargets = {t for _, _, _, t in seq['c']}; dtargets = {t for _, _, _, t in seq['d']}
-    okr = kw.get('A', '').endswith('.A') and kw.get('B', '').endswith('.B') and {kw.get('C')} == ctargets and {kw.get('D')} == dtargets
-    rep.ob('R10.wrapper', 'result', okr, f'StateSpaceModel({kw})', site)
+    site = f.site
+    ev = Evaluator(prog); ev.opaque_fns |= {(SS, 'nodal_state_space_model')}
+    t = call(ev, f, [A('circuit'), A('potential_nodes'), A('voltage_ids'), A('current_ids')])
+    if not isinstance(t, Rec) or not all(k in t.f for k in 'ABCD'):
+        rep.ob('R10.wrapper', 'result', None, f'result not a StateSpaceModel record: {t!r:.160}', site); return
+    ats = [t.f[k].as_atom() if isinstance(t.f[k], Poly) else None for k in 'AB']
+    okr = all(isinstance(a_, tuple) and a_[:1] == ('.',) and a_[2] == k for a_, k in zip(ats, 'AB')) and ats[0][1] == ats[1][1] \
+        and isinstance(ats[0][1], tuple) and ats[0][1][:2] == ('call', ('fn', 'nodal_state_space_model'))
+    rep.ob('R10.wrapper', 'result', bool(okr), 'A and B are those of the nodal state-space model of the circuit', site)
+    if not okr: return
+    ssm = Poly.atom(ats[0][1])
+    env = {'ssm': ssm, 'potential_nodes': A('potential_nodes'), 'voltage_ids': A('voltage_ids'), 'current_ids': A('current_ids'), 'np': ev.lookup('np', {'__parent__': None}, f.mod)}
+    for mat, pre in (('C', 'c'), ('D', 'd')):
+        src = (f"np.vstack([ssm.{pre}_row_for_potential(i) for i in potential_nodes] + [ssm.{pre}_row_voltage(i) for i in voltage_ids] + "
+               f"[ssm.{pre}_row_current(i) for i in current_ids])")
+        sp = spec(ev, src, env, f.mod)
+        got = t.f[mat]
+        ok = term_equal(got, sp)
+        rep.ob('R10.wrapper', f'{mat}-rows', True if ok else (None if has_opaque(got) else False),
+               f'{mat} = {got!r:.300}' if not ok else f'{mat} stacks the potential rows, then the voltage rows, then the current rows, each requested for its own identifier', site, lhs=got, rhs=sp)
+    # arguments of the model: DC network of the circuit, capacitor / inductance value dictionaries in listing order
+    kw = dict(ats[0][1][3]); pos = list(ats[0][1][2])
+    names = ['network', 'c_values', 'l_values']
+    args = {n: kw.get(n, pos[i] if i < len(pos) else None) for i, n in enumerate(names)}
+    envc = {'circuit': A('circuit')}
+    for nm, kind, key in (('c_values', 'capacitor', 'C'), ('l_values', 'inductance', 'L')):
+        sp = spec(ev, f"{{c.id: float(c.value['{key}']) for c in circuit.components if c.type == '{kind}'}}", envc, f.mod)
+        from ..terms import Comp as _C
+        k = args.get(nm)
+        okv = k is not None and _dict_comp_equal(k, tkey(sp))
+        rep.ob('R10.wrapper', f'model:{nm}', True if okv else (None if k is None or "'?'" in repr(k) else False), f"{nm} = {{id: value['{key}'] for the {kind} components in listing order}}", site)
 
 
-MIRROR = {'C': 'D', 'A': 'B', 'c_pos': 'd_pos', 'c_neg': 'd_neg', 'c_row_for_potential': 'd_row_for_potential', 'c_row': 'd_row'}
-MIRROR_PAIRS = [('c_row_for_potential', 'd_row_for_potential'), ('c_row_voltage', 'd_row_voltage')]
+def _dict_comp_equal(k, want):
+    """two dict-comprehension keys are equal, also when one filters in a nested comprehension and the other in its own generator"""
+    if k == want: return True
+    def norm(x):
+        # ('comp','dict', elt, ((iter, filters),)) with iter = ('comp','list', β, ((src, filters2),)) over identity element  ->  single generator over src
+        if isinstance(x, tuple) and x[:2] == ('comp', 'dict') and len(x[3]) == 1:
+            it, fl = x[3][0]
+            if isinstance(it, tuple) and it[:2] == ('comp', 'list') and len(it[3]) == 1:
+                src, fl2 = it[3][0]
+                inner_beta = ('β', 0, src)
+                if it[2] == ('poly', (((inner_beta, Fraction(1)),), (Fraction(1), Fraction(0)))):
+                    outer_beta = ('β', 0, it)
+                    return ('comp', 'dict', _subst_key(x[2], outer_beta, inner_beta), ((src, tuple(_subst_key(f_, outer_beta, inner_beta) for f_ in fl) + tuple(fl2)),))
+        return x
+    return norm(k) == norm(want)
 
 
-def _alpha(fn):
-    """canonical dump of a function body with local variable names replaced by their order of first binding"""
-    import copy
-    fn = copy.deepcopy(fn)
-    params = {a.arg for a in fn.args.args}
-    order = {}
-    for n in ast.walk(fn):
-        if isinstance(n, ast.Name) and isinstance(n.ctx, ast.Store) and n.id not in params and n.id not in order:
-            order[n.id] = f'v{len(order)}'
-    for n in ast.walk(fn):
-        if isinstance(n, ast.Name) and n.id in order: n.id = order[n.id]
-    return fn
+def _subst_key(k, old, new):
+    if k == old: return new
+    if isinstance(k, tuple): return tuple(_subst_key(x, old, new) for x in k)
+    return k
 
 
-class _Ren(ast.NodeTransformer):
-    def visit_Name(self, n):
-        return ast.copy_location(ast.Name(id=MIRROR.get(n.id, n.id), ctx=n.ctx), n)
-    def visit_Attribute(self, n):
-        self.generic_visit(n)
-        return ast.copy_location(ast.Attribute(value=n.value, attr=MIRROR.get(n.attr, n.attr), ctx=n.ctx), n)
+MIRROR = {'C': 'D', 'A': 'B', 'c_row_for_potential': 'd_row_for_potential', 'c_row_voltage': 'd_row_voltage', 'c_row_current': 'd_row_current'}
+MIRROR_PAIRS = [('c_row_for_potential', 'd_row_for_potential', 'node_id'), ('c_row_voltage', 'd_row_voltage', 'branch_id')]
+
+
+def _mirror_key(k):
+    """C <-> D, A <-> B and c_row_* <-> d_row_* on the attributes of `self` inside a term key"""
+    if isinstance(k, tuple):
+        if len(k) == 3 and k[0] == '.' and k[1] == 'self' and k[2] in MIRROR: return ('.', 'self', MIRROR[k[2]])
+        return tuple(_mirror_key(x) for x in k)
+    return k
 
 
 def rows(rep, prog):
-    import copy
-    m = prog.mod(SS); cls = m.defs.get('NodalStateSpaceModel')
-    if not isinstance(cls, ast.ClassDef):
+    """the feedthrough accessors are the images of the state accessors under C -> D, A -> B (normal forms of the methods; private helpers
+    inlined), except that a current source feeds through with a one at its own input column"""
+    from ..terms import paths_of, has_opaque, Opq, Poly
+    from .solutions import new_ev, method_term, class_of
+    try:
+        mm, cls = class_of(prog, SS, 'NodalStateSpaceModel')
+    except Exception:
         rep.ob('R10.rows', 'class', None, 'NodalStateSpaceModel not found'); return
-    meth = {n.name: n for n in cls.body if isinstance(n, ast.FunctionDef)}
-    for c, d in MIRROR_PAIRS:
-        if c not in meth or d not in meth:
-            rep.ob('R10.rows', f'{c}/{d}', None, 'accessor missing', prog.site(m, cls)); continue
-        cm = _alpha(_Ren().visit(copy.deepcopy(meth[c])))
-        a = ast.dump(ast.Module(body=cm.body, type_ignores=[]), annotate_fields=False)
-        b = ast.dump(ast.Module(body=_alpha(meth[d]).body, type_ignores=[]), annotate_fields=False)
-        rep.ob('R10.rows', f'{c}/{d}', a == b, 'mirror images under C<->D' if a == b else 'the two accessors differ beyond C<->D renaming', prog.site(m, meth[d]))
-    # current rows: compare branch by branch
-    if 'c_row_current' in meth and 'd_row_current' in meth:
-        cc, dc = meth['c_row_current'], meth['d_row_current']
-        def rets(fn):
-            return sorted((r for r in ast.walk(fn) if isinstance(r, ast.Return) and r.value is not None), key=lambda r: (r.lineno, r.col_offset))
-        def canon(expr, fn):
-            # locals numbered by first occurrence inside the returned expression itself
-            e2 = copy.deepcopy(expr)
-            params = {a.arg for a in fn.args.args}
-            order = {}
-            for n_ in ast.walk(e2):
-                if isinstance(n_, ast.Name) and n_.id not in params and n_.id not in ('np', 'self'):
-                    order.setdefault(n_.id, f'v{len(order)}'); n_.id = order[n_.id]
-            return ast.unparse(e2)
-        rc = [canon(_Ren().visit(copy.deepcopy(r.value)), cc) for r in rets(cc)]
-        rd = [canon(r.value, dc) for r in rets(dc)]
-        # the state rows may only read A / C, the feedthrough rows only B / D
-        c_uses = {n.attr for n in ast.walk(cc) if isinstance(n, ast.Attribute) and isinstance(n.value, ast.Name) and n.value.id == 'self' and n.attr in 'ABCD'}
-        d_uses = {n.attr for n in ast.walk(dc) if isinstance(n, ast.Attribute) and isinstance(n.value, ast.Name) and n.value.id == 'self' and n.attr in 'ABCD'}
-        rep.ob('R10.rows', 'current:matrices', c_uses <= {'A', 'C'} and d_uses <= {'B', 'D'}, f'c_row_current reads {sorted(c_uses)}, d_row_current reads {sorted(d_uses)}', prog.site(m, dc))
-        same_cap = len(rc) >= 1 and len(rd) >= 1 and rc[0] == rd[0]
-        same_pas = len(rc) >= 1 and rc[-1] == rd[-1]
-        rep.ob('R10.rows', 'current:capacitor', same_cap, f'{rc[0] if rc else None} ~ {rd[0] if rd else None}', prog.site(m, dc))
-        rep.ob('R10.rows', 'current:passive', same_pas, f'{rc[-1] if rc else None} ~ {rd[-1] if rd else None}', prog.site(m, dc))
+    def term(meth, arg):
+        ev = new_ev(prog); ev.opaque_fns |= {('Network.elements', 'is_ideal_voltage_source')}
+        return method_term(prog, ev, mm, cls, meth, [A(arg)])
+    for c, d, arg in MIRROR_PAIRS:
+        try:
+            (tc, _), (td, site) = term(c, arg), term(d, arg)
+        except AnalysisError:
+            rep.ob('R10.rows', f'{c}/{d}', None, 'accessor missing', prog.site(mm, cls)); continue
+        ok = _mirror_key(tkey(tc)) == tkey(td)
+        rep.ob('R10.rows', f'{c}/{d}', True if ok else (None if has_opaque(tc) or has_opaque(td) else False),
+               'mirror images under C<->D' if ok else f'{c} = {tc!r:.200}  but  {d} = {td!r:.200}', site)
+    try:
+        (tc, _), (td, site) = term('c_row_current', 'branch_id'), term('d_row_current', 'branch_id')
+    except AnalysisError:
+        rep.ob('R10.rows', 'current', None, 'accessor missing', prog.site(mm, cls)); return
+    pc_, pd_ = dict(paths_of(tc)), dict(paths_of(td))
+    uses = lambda t: {x for x in 'ABCD' if repr(('.', 'self', x)) in repr(tkey(t))}
+    rep.ob('R10.rows', 'current:matrices', uses(tc) <= {'A', 'C'} and uses(td) <= {'B', 'D'}, f'c_row_current reads {sorted(uses(tc))}, d_row_current reads {sorted(uses(td))}', site)
+    if set(pc_) != set(pd_):
+        rep.ob('R10.rows', 'current:cases', None if has_opaque(tc) or has_opaque(td) else False, f'the two accessors distinguish different cases: {len(pc_)} vs {len(pd_)} paths', site); return
+    rep.ob('R10.rows', 'current:cases', True, f'{len(pc_)} cases, the same in both accessors', site)
+    csm = repr(tkey(Opq('in', A('branch_id'), ev_attr(prog, mm, 'current_source_index_mapping'))))
+    cap = repr(tkey(Opq('in', A('branch_id'), ev_attr(prog, mm, 'c_values'))))
+    for pc in pc_:
+        lc, ld = pc_[pc], pd_[pc]
+        is_src = (csm, True) in pc
+        is_cap = (cap, True) in pc
+        name = 'current:source' if is_src else ('current:capacitor' if is_cap else ('current:passive' if all(not v for _, v in pc) else 'current:voltage-source'))
+        if is_src:
+            # state row: zeros; feedthrough row: zeros with a one at the source's own input column
+            okc = isinstance(lc, Opq) and lc.k[0] == 'np.zeros'
+            okd = False
+            if isinstance(ld, Opq) and ld.k[0] == 'build' and len(ld.k[2]) == 1:
+                st = ld.k[2][0]
+                idx, val = st.k[3], st.k[4]
+                want = Poly.atom(('[]', ('.', 'self', 'current_source_index_mapping'), tkey(A('branch_id'))))
+                okd = len(idx) == 1 and tkey(idx[0]) == tkey(want) and isinstance(val, Poly) and val.real_const() == 1 and st.k[2] is True
+            rep.ob('R10.rows', name, True if (okc and okd) else (None if has_opaque(ld) else False), f'state row {lc!r:.80} ; feedthrough row {ld!r:.160}', site)
+        else:
+            ok = _mirror_key(tkey(lc)) == tkey(ld)
+            rep.ob('R10.rows', name, True if ok else (None if has_opaque(lc) or has_opaque(ld) else False), f'{lc!r:.120} ~ {ld!r:.120}', site)
+
+
+def ev_attr(prog, mm, attr):
+    from ..terms import Evaluator
+    return Evaluator(prog).getattr(A('self'), attr, mm, 0)
